@@ -333,8 +333,11 @@ func (hm *allSegmentMetadata) deleteTable(table string, orgid int64) {
 	for segKey := range allSegKeysInTable {
 		hm.deleteSegmentKeyWithLock(segKey)
 	}
-	delete(hm.tableSortedMetadata, table)
-	GlobalSegStoreSummary.DecrementTotalTableCount()
+	// segments of other organisations that own an index of the same name stay listed
+	if len(hm.tableSortedMetadata[table]) == 0 {
+		delete(hm.tableSortedMetadata, table)
+		GlobalSegStoreSummary.DecrementTotalTableCount()
+	}
 }
 
 // internal function to delete segment key from all SiglensMetadata structs
